@@ -63,11 +63,55 @@ Definition send_pieces (eio : str) (pieces : list pv) : SM unit :=
 Definition pieces_of (enc : str * option (list str)) : list pv :=
   PStr (fst enc) :: match snd enc with Some atts => map PBytes atts | None => [] end.
 
+(* ---- msgpack serializer (msgpack_packet.py): the wire value is msgpack.dumps(pkt._to_dict());
+   the msgpack library is an oracle in both directions, so frames are compared as the dict ---- *)
+Fixpoint mp_norm (v : pv) : pv :=               (* what msgpack.loads(msgpack.dumps(v)) returns: tuples come back as lists *)
+  match v with
+  | PTuple l | PList l => PList ((fix go (l : list pv) : list pv := match l with [] => [] | x :: r => mp_norm x :: go r end) l)
+  | PDict kv => PDict ((fix go (kv : list (pv * pv)) : list (pv * pv) :=
+                          match kv with [] => [] | (k, x) :: r => (k, mp_norm x) :: go r end) kv)
+  | x => x
+  end.
+Definition to_dict (p : packet) : pv :=
+  PDict ([(PStr (s2l "type"), ptype p); (PStr (s2l "data"), mp_norm (pdata p));
+          (PStr (s2l "nsp"), match pns p with Some n => PStr n | None => PNone end)]
+         ++ match pid p with Some i => [(PStr (s2l "id"), PInt i)] | None => [] end).
+Definition encode_pieces (c : cfg) (p : packet) : Res (list pv) :=
+  if uses_binary c then enc <- encode p ;; Ok (pieces_of enc) else Ok [to_dict p].
+
+(* MsgPackPacket.decode on the value msgpack.loads returned (oracle) *)
+Definition decode_msgpack (loads : str -> Res pv) (payload : pv) : Res rpacket :=
+  if negb (truthy payload) then Ok (mkR default_packet 0 []) else
+  d <- loads (match payload with PBytes b | PStr b => b | _ => [] end) ;;
+  match d with
+  | PDict kv =>
+      match dict_get kv (PStr (s2l "type")) with
+      | None => Err KeyError
+      | Some t =>
+          let data := match dict_get kv (PStr (s2l "data")) with Some x => x | None => PNone end in
+          match dict_get kv (PStr (s2l "nsp")) with
+          | None => Err KeyError
+          | Some nsv =>
+              match (match nsv with PStr n => Some (Some n) | PNone => Some None | _ => None end),
+                    (match dict_get kv (PStr (s2l "id")) with
+                     | None | Some PNone => Some None
+                     | Some (PInt i) => Some (Some i)
+                     | Some _ => None end) with
+              | Some ns, Some id => Ok (mkR (mkPacket t ns id data) 0 [])
+              | _, _ => Err OtherError        (* mistyped header fields: outside the modelled domain *)
+              end
+          end
+      end
+  | _ => Err TypeError
+  end.
+Definition decode_any (c : cfg) (loads : str -> Res pv) (payload : pv) : Res rpacket :=
+  if uses_binary c then decode loads payload else decode_msgpack loads payload.
+
 Definition send_packet (c : cfg) (eio : option str) (t : Z) (data : pv) (ns : str) (id : option Z) : SM unit :=
   p <~ lift (ctor (uses_binary c) t data (Some ns) id None) ;;
-  enc <~ lift (encode p) ;;
+  pieces <~ lift (encode_pieces c p) ;;
   match eio with
-  | Some e => send_pieces e (pieces_of enc)
+  | Some e => send_pieces e pieces
   | None => ret tt                                  (* eio.send(None, ..): unknown socket, dropped *)
   end.
 
@@ -89,9 +133,9 @@ Definition mgr_emit (c : cfg) (event : pv) (data : pv) (ns : str) (room : pv) (s
       match cb with
       | None =>
           p <~ lift (ctor (uses_binary c) EVENT payload (Some ns) None None) ;;
-          enc <~ lift (encode p) ;;
+          pieces <~ lift (encode_pieces c p) ;;
           parts <~ lift (participants (mg s) ns room) ;;
-          forM parts (fun se => if skipped sk (fst se) then ret tt else send_pieces (snd se) (pieces_of enc))
+          forM parts (fun se => if skipped sk (fst se) then ret tt else send_pieces (snd se) pieces)
       | Some cbref =>
           parts <~ lift (participants (mg s) ns room) ;;
           forM parts (fun se =>
@@ -216,7 +260,8 @@ Definition call_with_retry (c : cfg) (ev : pv) (hid : N) (ns sid : str) (args : 
 
 (* _trigger_event: None = not handled *)
 Definition trigger_event (c : cfg) (ev : pv) (ns : str) (args : list pv) : SM (option pv) :=
-  if is_unhashable ev then raise TypeError else
+  (* `event in self.handlers[...]` hashes the event name: only when such a table is consulted *)
+  if is_unhashable ev && (ahas str_eqb (handlers c) ns || ahas str_eqb (handlers c) star) then raise TypeError else
   let sid := arg_sid args in
   match get_event_handler c ev ns args with
   | Some (h, args') => v <~ call_with_retry c ev h ns sid args' ;; ret (Some v)
@@ -396,7 +441,7 @@ Definition handle_eio_message (c : cfg) (loads : str -> Res pv) (eio : str) (pay
           raise e
       end
   | None =>
-      r <~ lift (if uses_binary c then decode loads payload else Err OtherError) ;;
+      r <~ lift (decode_any c loads payload) ;;
       let p := rp r in
       if type_is p CONNECT then handle_connect c eio (pns p) (pdata p)
       else if type_is p DISCONNECT then handle_disconnect c eio (pns p) r_client_disconnect
